@@ -10,7 +10,7 @@ variable {cfg : Config} {p : Problem}
 /-- primitives of the submit path / of `_start_processes` / the serial `run()` -/
 def Prim.launches : Prim → Bool
   | .startTask _ | .enqueue _ | .procStart _ | .regRunning _ | .unregPending _ | .regFuture _
-  | .serialAppend _ | .serialRun | .serialSave => true
+  | .serialAppend _ | .serialRun | .serialSaveBegin | .serialSaveEnd => true
   | _ => false
 
 def Prim.isRaise : Prim → Bool
@@ -101,8 +101,9 @@ theorem members_wait {P : Prim → Prop} (hP : GenOK cfg P) (req : List Tid) (c 
     · next j rest hqe =>
       have hne : s.rs.queued ≠ [] := by rw [hqe]; simp
       simp only [List.mem_append, List.mem_cons, List.not_mem_nil, or_false] at hq
-      rcases hq with ((rfl | rfl | rfl) | rfl) | hq
+      rcases hq with ((rfl | rfl | rfl | rfl) | rfl) | hq
       · exact hP.basic _ rfl rfl
+      · exact hl hne _ rfl
       · exact hl hne _ rfl
       · exact hl hne _ rfl
       · exact hP.basic _ rfl rfl
